@@ -21,7 +21,16 @@ def build(g):
 
     masks = OrderedDict((n, np.array(m, dtype=bool)) for n, m in g["labels"])
     E = np.array(sorted(g["edges"]), dtype=int).reshape(-1, 2)
-    return LabelledPointUndirectedGraph.init_from_edges(coords(g["pts"]), E, masks)
+    P = coords(g["pts"])
+    obj = LabelledPointUndirectedGraph.init_from_edges(P, E, masks)
+    # what was handed to the constructor stays the caller's: the buffers are reused for something else straight away (mask buffers
+    # inverted, the mapping emptied, coordinates and edge list overwritten) - the group must not follow
+    for m in list(masks.values()):
+        np.logical_not(m, out=m)
+    masks.clear()
+    P[...] = -777.0
+    E[...] = 0
+    return obj
 
 
 def project(obj):
